@@ -150,7 +150,7 @@ def json (fs : List String) : String :=
         if !(skipWs rest).isEmpty then "err:trailingChars" else
         match v with
         | .arr [.int i] => if i < 0 then s!"i64:{i}" else s!"u64:{i}"
-        | .arr [.float _] => "float"
+        | .arr [.float src] => "float:" ++ toHex src
         | _ => "other"
     | none => "bad-case"
   | _ => "bad-case"
